@@ -17,7 +17,11 @@ make_shadow() {
     SH="$ROOT/target/shadow/lfp-shuttled"
     rm -rf "$SH"; mkdir -p "$SH"
     cp -r /repo/src "$SH/src"
+    # `use std::{sync::mpsc, thread};` -> one use per item, so that the rewriting below sees every path
+    python3 "$ROOT/scripts/expand_uses.py" "$SH/src" 2>/dev/null || true
     find "$SH/src" -name '*.rs' -print0 | xargs -0 sed -i -E \
+        -e 's/^(\s*(pub(\([a-z: ]+\))?\s+)?use\s+)(::)?std::thread\s*;/\1crate::__verif_thread as thread;/' \
+        -e 's/^(\s*(pub(\([a-z: ]+\))?\s+)?use\s+)(::)?std::sync\s*;/\1crate::__verif_sync as sync;/' \
         -e 's/(::)?\bstd::sync\b/crate::__verif_sync/g' \
         -e 's/(::)?\bcore::sync::atomic\b/crate::__verif_sync::atomic/g' \
         -e 's/(::)?\bstd::thread\b/crate::__verif_thread/g' \
